@@ -26,26 +26,38 @@ Definition new_log (size : Z) : option rlog :=
   then Some (mk_rlog (fun _ => false) size 0 false 0)
   else None.
 
+(* `pos := seq % s.size`.  size is a power of two (newReceiveLog admits nothing
+   else), so the remainder is the mask seq & (size-1); the model uses the mask
+   because Z.land is 20x cheaper than Z.modulo under vm_compute.
+   Proofs/ReceiveLogProofs.v, slot_mod: slot sz seq = seq mod sz for every
+   valid size. *)
+Definition slot (sz seq : Z) : Z := Z.land seq (sz - 1).
+
+(* `i++` on a uint16 (= add16 i 1, lemma inc16_add16; avoids Z.modulo in loops) *)
+Definition inc16 (i : Z) : Z := if i + 1 =? 65536 then 0 else i + 1.
+
 (* setReceived / delReceived / getReceived *)
 Definition set_recv (f : Z -> bool) (sz seq : Z) : Z -> bool :=
-  let p := seq mod sz in fun q => if q =? p then true else f q.
+  let p := slot sz seq in fun q => if q =? p then true else f q.
 Definition del_recv (f : Z -> bool) (sz seq : Z) : Z -> bool :=
-  let p := seq mod sz in fun q => if q =? p then false else f q.
-Definition get_recv (f : Z -> bool) (sz seq : Z) : bool := f (seq mod sz).
+  let p := slot sz seq in fun q => if q =? p then false else f q.
+Definition get_recv (f : Z -> bool) (sz seq : Z) : bool := f (slot sz seq).
 
 (* `for i := s.end + 1; i != seq; i++ { s.delReceived(i) }` literally: n trips
    starting at i (n = sub16 seq end - 1) *)
 Fixpoint del_loop (f : Z -> bool) (sz i : Z) (n : nat) : Z -> bool :=
   match n with
   | O => f
-  | S k => del_loop (del_recv f sz i) sz (add16 i 1) k
+  | S k => del_loop (del_recv f sz i) sz (inc16 i) k
   end.
 
 (* the same loop in closed form (what is executed; Proofs/ReceiveLogProofs.v,
    del_loop_closed, shows it agrees with del_loop on every slot): the n slots
-   following slot(e) cyclically are cleared *)
+   following slot(e) cyclically are cleared (for slots 0 <= q < size) *)
 Definition clear_range (f : Z -> bool) (sz e n : Z) : Z -> bool :=
-  fun q => if (q - e - 1) mod sz <? n then false else f q.
+  let a := slot sz (e + 1) in
+  fun q => let t := q - a in
+           if (if t <? 0 then t + sz else t) <? n then false else f q.
 
 (* fixLastConsecutive:
      i := lastConsecutive + 1
@@ -56,7 +68,7 @@ Definition clear_range (f : Z -> bool) (sz e n : Z) : Z -> bool :=
 Fixpoint fix_loop (f : Z -> bool) (sz e1 i : Z) (n : nat) : Z :=
   match n with
   | O => i
-  | S k => if negb (i =? e1) && get_recv f sz i then fix_loop f sz e1 (add16 i 1) k else i
+  | S k => if negb (i =? e1) && get_recv f sz i then fix_loop f sz e1 (inc16 i) k else i
   end.
 
 Definition fix_last (f : Z -> bool) (sz e lc : Z) : Z :=
@@ -118,8 +130,8 @@ Definition get (s : rlog) (seq : Z) : bool :=
 Fixpoint miss_loop (f : Z -> bool) (sz i : Z) (n : nat) : list Z :=
   match n with
   | O => []
-  | S k => if get_recv f sz i then miss_loop f sz (add16 i 1) k
-           else i :: miss_loop f sz (add16 i 1) k
+  | S k => if get_recv f sz i then miss_loop f sz (inc16 i) k
+           else i :: miss_loop f sz (inc16 i) k
   end.
 
 (* receiveLog.missingSeqNumbers(skipLastN, buf) *)
